@@ -458,6 +458,134 @@ func (c *c10) probe(k c10known, in []byte, l uint64) {
 	c.caseEnd()
 }
 
+// ---- primitive codecs on the VALUE level -----------------------------------
+
+func (s *c10slot) setNum(v uint64) {
+	s.u8, s.u16, s.u32, s.u64, s.bl = uint8(v), uint16(v), uint32(v), v, v&1 == 1
+}
+
+func (s *c10slot) num() uint64 {
+	switch s.k.kind {
+	case 'b':
+		if s.bl {
+			return 1
+		}
+		return 0
+	}
+	switch s.k.n {
+	case 1:
+		return uint64(s.u8)
+	case 2:
+		return uint64(s.u16)
+	case 4:
+		return uint64(s.u32)
+	}
+	return s.u64
+}
+
+// primEnc: the record encoder of kind k on the NUMBER v (truncated to the Go
+// type's width): bytes written and the record's declared size.
+func (c *c10) primEnc(k c10known, v uint64) []byte {
+	c.caseStart("prim-enc")
+	res := ""
+	var out []byte
+	func() {
+		defer func() {
+			if r := recover(); r != nil {
+				res = "panic"
+			}
+		}()
+		slot := &c10slot{k: k}
+		slot.setNum(v)
+		rec := slot.record()
+		var b bytes.Buffer
+		if err := rec.Encode(&b); err != nil {
+			res = "err"
+			return
+		}
+		out = append([]byte{}, b.Bytes()...)
+		res = fmt.Sprintf("%s size=%d", c10hx(out), rec.Size())
+	}()
+	c.pf("pe %c %d %d => %s", k.kind, k.n, v, res)
+	c.caseEnd()
+	return out
+}
+
+// primDec: the record decoder of kind k on exactly the bytes `in` (declared
+// length = len(in)): the NUMBER it yields and what its encoder writes back.
+func (c *c10) primDec(k c10known, in []byte) {
+	c.caseStart("prim-dec")
+	res := ""
+	func() {
+		defer func() {
+			if r := recover(); r != nil {
+				res = "panic"
+			}
+		}()
+		slot := &c10slot{k: k}
+		rec := slot.record()
+		if err := rec.Decode(bytes.NewReader(in), uint64(len(in))); err != nil {
+			res = "err " + c10errName(err)
+			return
+		}
+		var b bytes.Buffer
+		rec2 := slot.record()
+		if err := rec2.Encode(&b); err != nil {
+			res = "ok v=" + strconv.FormatUint(slot.num(), 10) + " enc=err"
+			return
+		}
+		res = fmt.Sprintf("ok v=%d enc=%s", slot.num(), c10hx(b.Bytes()))
+	}()
+	c.pf("pd %c %d %s => %s", k.kind, k.n, c10hx(in), res)
+	c.caseEnd()
+}
+
+func (c *c10) prims(thorough bool) {
+	kinds := []c10known{{0, 't', 2}, {0, 't', 4}, {0, 't', 8}, {0, 'f', 1}, {0, 'f', 2}, {0, 'f', 4}, {0, 'f', 8}, {0, 'b', 0}}
+	var vals []uint64
+	for _, e := range c10edges {
+		for d := -1; d <= 1; d++ {
+			vals = append(vals, e+uint64(d))
+		}
+	}
+	// every byte-length boundary of the truncated encodings
+	for sh := uint(8); sh < 64; sh += 8 {
+		vals = append(vals, 1<<sh-1, 1<<sh, 1<<sh+1, 0xff<<sh)
+	}
+	n := 40
+	if thorough {
+		n = 2000
+	}
+	for i := 0; i < n; i++ {
+		vals = append(vals, c.u64())
+	}
+	for _, k := range kinds {
+		for _, v := range vals {
+			enc := c.primEnc(k, v)
+			if enc == nil && !(k.kind == 't') {
+				continue
+			}
+			c.primDec(k, enc)
+			// one leading zero byte more (non-minimal / too long), one byte
+			// less, one byte more at the end
+			c.primDec(k, c10cat10([]byte{0}, enc))
+			if len(enc) > 0 {
+				c.primDec(k, enc[1:])
+				c.primDec(k, enc[:len(enc)-1])
+			}
+			c.primDec(k, c10cat10(enc, []byte{byte(v)}))
+		}
+		for i := 0; i < n; i++ {
+			c.primDec(k, c.bytes(c.rng.Intn(11)))
+		}
+		for l := 0; l <= 9; l++ {
+			c.primDec(k, make([]byte, l))
+			c.primDec(k, bytes.Repeat([]byte{0xff}, l))
+			c.primDec(k, c10cat10(make([]byte, l), []byte{1}))
+		}
+	}
+}
+
 // ---- generators -----------------------------------------------------------
 
 var c10edges = []uint64{
@@ -786,6 +914,9 @@ func TestVerifC10(t *testing.T) {
 	defer c.w.Flush()
 
 	c.pf("FACT maxRecordSize=%d", MaxRecordSize)
+
+	// (0) primitive record codecs on the value level
+	c.prims(thorough)
 
 	mult := 1
 	if thorough {
